@@ -120,7 +120,7 @@ def build_harness(fam, variant=""):
     """compile harness/<src> against /repo's current headers (content-addressed cache)"""
     spec = FAMILIES[fam]
     flags = list(spec.get("flags", ["-fsanitize=address,undefined", "-fno-sanitize-recover=all"]))
-    defs = list(spec.get("defs", [])) + ([variant] if variant else [])
+    defs = list(spec.get("defs", [])) + (variant.split(" ") if variant else [])
     h = repo_fingerprint()
     for src in [spec["src"], "common.hpp", "st_common.hpp"] + spec.get("deps", []):
         h.update(open(os.path.join(VERIF, "harness", src), "rb").read())
@@ -348,7 +348,7 @@ def main():
             print("replay: %d lines, %d failing" % (len(lines), len(bad)))
             return 1 if bad else 0
         nsl = P.get("slices", {}).get(tier, NCPU)
-        base = ["--seed", str(seed), "--tier", tier, "--prop", prop] + (["--variant", variant] if variant else [])
+        base = ["--seed", str(seed), "--tier", tier, "--prop", prop]
         args_list = [base + ["--slice", "%d/%d" % (k, nsl)] for k in range(nsl)]
         res = run_pipelines(binp, args_list, known_ids, timeout)
         for x in res:
